@@ -1,5 +1,6 @@
 """dev tool: run a property's scenarios and print scenarios whose verdict contains a clause"""
-import sys, json
+import sys, json, logging
+logging.getLogger("aioswitcher").addHandler(logging.NullHandler())
 sys.path.insert(0, "/verif")
 from harness import props, tlc
 from harness.core import Ctx
